@@ -106,4 +106,5 @@ def run(tier):
     rep.assumptions = ["bitwise reproducibility of the platform across processes (checked: the reference tags every sweep)",
                        "semi-async with shuffling is excluded (PRNG key is not checkpointed; only the error bound is promised)"]
     rep.extra["machinery_retries"] = list(ckptlib.RETRIES)
+    rep.extra["scenarios_skipped_reference_did_not_converge"] = list(ckptlib.SKIPPED)
     return rep.finish()
